@@ -355,16 +355,28 @@ def run_cell(cell) -> tuple:
         return run_any_recipient_cell(cell)
     if kind == "jws-multi":
         return run_multi_signature_cell(cell)
+    # the caller may hold the names in another container than a list (a tuple constant, a frozenset): it restricts all the same
+    Lc = L if not cell.get("container") or not L else tuple(L) if cell["container"] == "tuple" else frozenset(L)
     if kind == "jws":
-        out = jws_call(op, entry, names["alg"], style, L)
+        out = jws_call(op, entry, names["alg"], style, Lc)
     else:
-        out = jwe_call(op, entry, names["alg"], names["enc"], names.get("zip"), style, L)
+        out = jwe_call(op, entry, names["alg"], names["enc"], names.get("zip"), style, Lc)
     if out[0] == "skip":
         return "skip", None
     return judge(kind, op, entry, names, None, style, L, out)
 
 
 def matrix(part):
+    import zlib
+    for cell in _matrix(part):
+        yield cell
+        if cell["kind"] in ("jws", "jwe") and cell["style"] in ("algorithms", "registry") and cell["L"] and isinstance(cell["names"].get("alg"), str):
+            h = zlib.crc32(json.dumps(cell, sort_keys=True, default=str).encode())
+            if h % 5 == 0:
+                yield dict(cell, container=("tuple", "frozenset")[h // 5 % 2], shape=cell["shape"] + ":" + ("tuple", "frozenset")[h // 5 % 2])
+
+
+def _matrix(part):
     if part == "jws":
         for name in JWS_NAMES + BAD_STR + NON_STR:
             for shape, L in lists_for(name, JWS_NAMES, REC_JWS):
@@ -553,6 +565,8 @@ def run_shard(ctx, spec):
         for j, cell in enumerate(matrix(spec["which"])):
             if j % spec["n"] != spec["i"]:
                 continue
+            if ctx.expired():
+                break
             verdict, finding = in_child(lambda: run_cell(cell))     # pristine process state per cell: the record is self-contained
             if verdict == "skip":
                 continue
